@@ -60,6 +60,13 @@ func scaleSpanDef(c Cfg, name string) trace.C13Span {
 	if t == c.Big && c.Big != "" && no <= bigSpans(c) {
 		d.Size = trace.C13MaxBlockSpanBytes
 	}
+	if c.BigKind == "batch-edge" {
+		// incompressible payloads: raw-staged blocks are accounted with their encoded size
+		if idx < c.Fillers && no == 1 {
+			d.Size = trace.C13MaxBlockSpanBytes
+		}
+		d.Rand = d.Size > 0
+	}
 	return d
 }
 
@@ -93,6 +100,10 @@ func traceRole(c Cfg, t string) string {
 		return "<oversized>"
 	case t == "*":
 		return t
+	case c.BigKind == "batch-edge" && scaleIndex(t) >= 0 && scaleIndex(t) < c.Fillers:
+		return "<filler>"
+	case c.BigKind == "batch-edge":
+		return "<trailing>"
 	case wouldDrop(c, t):
 		return "<drop-verdict>"
 	default:
@@ -108,9 +119,15 @@ func samplerName(c Cfg) string {
 	if c.Pattern != "" {
 		s += ":" + c.Pattern
 	}
+	if c.Sampler == "short" {
+		s += fmt.Sprintf(":%dus", c.Thresh/1000)
+	}
 	s += fmt.Sprintf("/n=%d", c.N)
 	if c.Big != "" {
 		s += fmt.Sprintf("/oversized=%s@%d", c.BigKind, scaleIndex(c.Big))
+		if c.TailB {
+			s += "+tail-in-2nd-part"
+		}
 	}
 	if c.FullProj {
 		s += "/proj"
@@ -231,6 +248,82 @@ func scaleUnits(thorough bool) []unit {
 	return us
 }
 
+// batchEdgeUnits (round 2): the decision-batch budget of a sampling merge is reached before / INSIDE / after a trace
+// that is stored as several blocks.  Fillers = j single-block traces of one 2 MiB (incompressible) span each, sorted
+// before the split trace X = [2 MiB span | two small spans] and a trailing small two-part trace Z; the engine resolves
+// a 16 MiB decision batch from the smallest memory limit, so with j0 = budget/2 MiB - 1 fillers the budget is reached
+// exactly when X's size-closed first block is staged; j in {j0-1, j0, j0+1} puts the edge after / inside / before X.
+// Samplers: "short" (verdict = f(time bounds handed to it): thresholds between every pair of distinct durations a
+// whole trace or a piece of X can have) and the id-based "list" sampler dropping X; X wholly in the first part or with
+// its last span in the second part; hot merge / finalize round / mem-part merge.
+func batchEdgeUnits(thorough bool) []unit {
+	var us []unit
+	const limit = 1
+	j0 := int(trace.C13StageBudget(limit)/trace.C13MaxBlockSpanBytes) - 1
+	type smp struct {
+		kind   string
+		thresh int64
+	}
+	smps := []smp{{"short", 500_000}, {"short", 1_500_000}, {"short", 2_500_000}, {"list", 0}}
+	projs := []bool{false}
+	if thorough {
+		projs = []bool{false, true}
+	}
+	for _, j := range []int{j0 - 1, j0, j0 + 1} {
+		for _, tailB := range []bool{false, true} {
+			for _, sm := range smps {
+				for _, proj := range projs {
+					big := scaleTraceID(j)
+					c := Cfg{Sampler: sm.kind, Thresh: sm.thresh, N: j + 2, Big: big, BigKind: "batch-edge", Fillers: j, TailB: tailB, Clock: "mature",
+						Mode: "scale", MemLimit: limit, FullProj: proj}
+					if sm.kind == "list" {
+						c.Drops = big
+					}
+					var a, b []string
+					for i := 0; i < j; i++ {
+						a = append(a, scaleTraceID(i)+".1")
+					}
+					a = append(a, big+".1", big+".2")
+					if tailB {
+						b = append(b, big+".3")
+					} else {
+						a = append(a, big+".3")
+					}
+					z := scaleTraceID(j + 1)
+					a = append(a, z+".1")
+					b = append(b, z+".2")
+					for _, op := range []string{"M", "FIN", "MM"} {
+						// quick tier (each history moves ~18 MiB; 8 histories): hot merge with short:500us at all three edge positions; at the
+						// "inside" position also short:1500us and list (M), and short:500us with FIN, MM and tail-in-second-part (M)
+						if !thorough {
+							base := !tailB && op == "M"
+							switch {
+							case base && sm.thresh == 500_000:
+							case base && j == j0 && sm.thresh != 2_500_000:
+							case j == j0 && sm.thresh == 500_000 && ((tailB && op == "M") || (!tailB && op != "M")):
+							default:
+								continue
+							}
+						}
+						var ops []Op
+						switch op {
+						case "M":
+							ops = []Op{{K: "W", Batch: a}, {K: "F"}, {K: "W", Batch: b}, {K: "F"}, {K: "M", Parts: []int{0, 1}}}
+						case "FIN":
+							ops = []Op{{K: "W", Batch: a}, {K: "F"}, {K: "W", Batch: b}, {K: "F"}, {K: "FIN"}}
+						case "MM":
+							ops = []Op{{K: "W", Batch: a}, {K: "W", Batch: b}, {K: "MM"}}
+						}
+						h := Hist{Cfg: c, Ops: ops}
+						us = append(us, unit{Cfg: c, Depth: len(ops), Scale: &h, Name: "batch-edge/" + op})
+					}
+				}
+			}
+		}
+	}
+	return us
+}
+
 // runScaleUnit executes one fixed history, checking every step.
 func runScaleUnit(u unit) unitResult {
 	r := unitResult{Unit: u.String(), Cfg: "scale " + u.Name, Outcomes: map[string]int{}, Notes: map[string]int{}, OpKinds: map[string]int{}, ByDepth: make([]int, u.Depth+1)}
@@ -254,7 +347,7 @@ func runScaleUnit(u unit) unitResult {
 		r.OpErrors++
 	}
 	for _, n := range res.notes {
-		r.Notes["scale:"+n]++
+		addNote(r.Notes, "scale:", n)
 	}
 	if res.post != nil {
 		r.ScaleDigest = digest(res.model, res.post)
